@@ -31,6 +31,11 @@ Results, for EVERY input (well-formed or not), every recursion budget, every reg
   below; measured on CPython 3.11: a 160 kB messageID or tag number takes 4–5 s, doubling the
   length quadruples the time).  This is polynomial, so C18 holds; it is the one place where the
   decoder is not linear.
+
+Fidelity caveat (second statement audit, A1): for an unknown protocolOp / filter / credential choice whose tag NUMBER has about 2041 or more
+octets CPython >= 3.11 raises ValueError (the f-string of the NotImplementedError message hits the int -> str digit limit) where `decMsg` returns
+`.notImpl`; `receive` maps both classes to ProtocolError.  "Same result" below is about `decMsg`.  Not charged: the text of error messages
+(decimal printing of k-octet numbers), and the buffer copies `receive` makes around the parse loop (quadratic for octet-by-octet delivery).
 -/
 import Verif.Model.MsgSteps
 import Verif.Proofs.MsgStepsBound
